@@ -109,6 +109,8 @@ class HistRunner {
   std::set<uint64_t> recently_unlinked;
   std::set<uint64_t> created_numbers_tables;
   Layout last_layout;
+  SummaryCache summary_cache;
+  bool final_pass = false;
   bool have_layout = false;
   size_t trace_pos = 0;
   std::set<uint64_t> layout_hashes;
@@ -483,10 +485,12 @@ class HistRunner {
     }
     recently_unlinked.clear();
     std::string why;
-    if (!layout_deep_check(L, dir, less.kind, &why)) {
+    if (final_pass) summary_cache.clear();  // the last check re-decodes every table from disk
+    if (!layout_deep_check(L, dir, less.kind, &why, &summary_cache)) {
       std::string p = why.substr(0, 3);
       VF_FAIL(p == "C13" ? "C13" : "C14", "%s", why.c_str());
     }
+    check_manifest_against_layout(L);
     if (nonempty >= 2 || multi) layout_hashes.insert(L.hash());
     if (nonempty >= 2) rep->count("class.layout>=2levels");
     // leak check (C13): only when nothing may legitimately pin an obsolete file
@@ -520,6 +524,41 @@ class HistRunner {
     }
     last_layout = L;
     have_layout = true;
+  }
+
+  // C17: replaying the MANIFEST named by CURRENT with the reference decoder reproduces the reported file set
+  void check_manifest_against_layout(const Layout &L) {
+    std::string cur, mbytes;
+    if (!read_file(dir + "/CURRENT", cur) || cur.empty() || cur.back() != '\n') VF_FAIL("C17", "CURRENT missing or not newline-terminated at a quiescent point");
+    std::string mname = cur.substr(0, cur.size() - 1);
+    if (!read_file(dir + "/" + mname, mbytes)) VF_FAIL("C17", "CURRENT names %s which does not exist", mname.c_str());
+    ref::VersionState vs;
+    std::string err;
+    ref::LogDecode ld;
+    if (!ref::manifest_replay(mbytes, &vs, &err, &ld)) VF_FAIL("C17", "reference decoder cannot replay %s: %s", mname.c_str(), err.c_str());
+    if (ld.torn_tail) VF_FAIL("C17", "%s ends in a partial record at a quiescent point", mname.c_str());
+    for (int lv = 0; lv < 7; lv++) {
+      if (vs.levels[lv].size() != L.levels[lv].size())
+        VF_FAIL("C17", "level %d: MANIFEST replay has %zu files, reported layout has %zu", lv, vs.levels[lv].size(), L.levels[lv].size());
+      for (auto &f : L.levels[lv]) {
+        auto it = vs.levels[lv].find(f.number);
+        if (it == vs.levels[lv].end()) VF_FAIL("C17", "level %d: table #%llu is in the reported layout but not in the MANIFEST replay", lv, (unsigned long long)f.number);
+        if (it->second.size != f.size || ikey_debug(it->second.smallest) != f.smallest || ikey_debug(it->second.largest) != f.largest)
+          VF_FAIL("C17", "table #%llu: MANIFEST replay (size %llu, %s .. %s) differs from the reported layout (size %llu, %s .. %s)", (unsigned long long)f.number,
+                  (unsigned long long)it->second.size, ikey_debug(it->second.smallest).c_str(), ikey_debug(it->second.largest).c_str(),
+                  (unsigned long long)f.size, f.smallest.c_str(), f.largest.c_str());
+      }
+    }
+    // counters: next-file is above every table the MANIFEST names (logs may legitimately be newer than the
+    // last edit: their numbers are re-marked from the directory listing at recovery)
+    uint64_t maxnum = 0;
+    for (int lv = 0; lv < 7; lv++) for (auto &f : L.levels[lv]) if (f.number > maxnum) maxnum = f.number;
+    if (!vs.has_next || !vs.has_last_seq || !vs.has_log) VF_FAIL("C17", "MANIFEST replay lacks next-file / last-sequence / log-number");
+    if (L.files() && vs.next_file <= maxnum) VF_FAIL("C17", "MANIFEST next-file %llu is not above the largest table number %llu it names", (unsigned long long)vs.next_file, (unsigned long long)maxnum);
+    const char *want_cmp = cfg.cmp == "reverse" ? "vf.reverse" : cfg.cmp == "clone" ? "vf.bytewise-clone" : cfg.cmp == "lenfirst" ? "vf.lenfirst" : "leveldb.BytewiseComparator";
+    if (vs.comparator != want_cmp) VF_FAIL("C17", "MANIFEST comparator name %s, database uses %s", vs.comparator.c_str(), want_cmp);
+    rep->count("manifest_replays");
+    if (vs.edits >= 2 && L.files() >= 1) rep->fp("C17.nt", fnv1a(mbytes));
   }
 
   std::string table_path(uint64_t n) {
@@ -558,6 +597,7 @@ class HistRunner {
               VF_FAIL("C13", "table number %llu re-created while an iterator still pins the earlier file", (unsigned long long)num);
           if (have_layout && last_layout.has(num) && !recently_unlinked.count(num))
             VF_FAIL("C13", "table number %llu re-created while the earlier file is live", (unsigned long long)num);
+          summary_cache.erase(num);
           if (!created_numbers_tables.insert(num).second) rep->count("table_number_recreated_after_death");
         }
       }
@@ -795,6 +835,7 @@ class HistRunner {
   void final_checks() {
     if (!db) return;
     full_check();
+    final_pass = true;
     structural_check(false);
     for (auto &p : iters) {
       // every live iterator still reports OK
